@@ -76,7 +76,10 @@ def render (s : St) (res : String) (nActors : Nat) : String :=
   let lev := joinWith "," (s.lev.map fun e => s!"{e.1}:r{e.2}")
   let nq := joinWith "," (s.nq.map fun e => s!"{e.1}:a{e.2}")
   let bal := joinWith "," ((List.range nActors).map fun a => toString (getBal s.bal a))
-  s!"res={res} h={s.h} t={s.t}{ras} | q={q} | sh={sh} | seqs={seqs} | lev={lev} | nq={nq} | mod={s.modBal} bal={bal}"
+  -- x/sequencer params in force: notice period, kick threshold, slash multiplier (raw 10^-18), slash minimum,
+  -- dishonor decrement per update, dishonor increment per liveness event
+  let sp := s!"{s.sqp.noticePeriod},{s.sqp.kickThr},{s.sqp.lsMul.raw},{s.sqp.lsAbs},{s.sqp.dishonorSU},{s.sqp.dishonorL}"
+  s!"res={res} h={s.h} t={s.t}{ras} | q={q} | sh={sh} | seqs={seqs} | lev={lev} | nq={nq} | mod={s.modBal} bal={bal} | sp={sp}"
 
 def updClass : Err → String
   | .unknownRollapp => "unknownRollapp"
@@ -154,6 +157,11 @@ def parseOp (d : DState) (f : List String) : Option Op :=
       -- x/rollapp MsgTransferOwnership: `xferowner r<i> by=<actor> to=<actor> uc=<0|1>` (uc: the new owner's
       -- bech32 string in upper case — the same address)
       some (.transferOwner (actorOf d (kv f "by")) (raOf d r) (actorOf d (kv f "to")))
+  | "set_seq_params" :: _ =>
+      -- x/sequencer MsgUpdateParams: `set_seq_params notice=<ns> kick=<n> mul=<raw> abs=<n> dsu=<n> dl=<n> auth=<gov|a<j>>`
+      some (.setSeqParams (kv f "auth" = "gov")
+        { noticePeriod := kvN f "notice", kickThr := kvN f "kick", lsMul := ⟨(kvN f "mul" : Nat)⟩, lsAbs := kvN f "abs",
+          dishonorSU := kvN f "dsu", dishonorL := kvN f "dl" })
   | "obsolete" :: _ =>
       let v := kv f "v"
       some (.obsolete (kv f "auth" = "gov") (if v = "-" then [] else (v.splitOn ",").map nat!))
